@@ -40,6 +40,9 @@ def replace_block(s, name, body):
 marker = "\n## 12. Per-property notes as built"
 s = replace_block(s, "FIXES", fixes_table())
 s = replace_block(s, "SEEDS", seeds_table())
+hp = os.path.join(ROOT, "docs", "harmless.md")
+if os.path.exists(hp):
+    s = replace_block(s, "HARMLESS", open(hp).read().strip())
 if marker in s:
     s = s[:s.index(marker)]
 out = [s.rstrip(), "", marker.strip(), "",
